@@ -672,4 +672,109 @@ theorem mapM_ok_mem {α β ε} (f : α → Except ε β) (l : List α) (r : List
     {b : β} (hb : b ∈ r) : ∃ a ∈ l, f a = .ok b :=
   forall₂_mem_right (mapM_ok_forall₂ f l r h) hb
 
+/-! ### review additions: balanced data -/
+
+theorem sum_range_ite (n t v : Nat) :
+    ((List.range n).map (fun c => if t = c then v else 0)).sum = if t < n then v else 0 := by
+  induction n with
+  | zero => simp
+  | succ n ih =>
+    rw [List.range_succ, List.map_append, List.sum_append, ih]
+    by_cases h1 : t < n
+    · have : t ≠ n := by omega
+      simp [h1, this]; omega
+    · by_cases h2 : t = n
+      · subst h2; simp
+      · have : ¬ t < n + 1 := by omega
+        simp [h1, h2, this]
+
+theorem sum_map_add_nat {α} (l : List α) (f g : α → Nat) :
+    (l.map (fun a => f a + g a)).sum = (l.map f).sum + (l.map g).sum := by
+  induction l with
+  | nil => rfl
+  | cons a l ih => simp only [List.map_cons, List.sum_cons, ih]; omega
+
+/-- the classes partition the items: summing a per-class count over all classes counts every
+    item (whose class index is in range) once -/
+theorem sum_class_counts (C : Nat) (items : List Item) (q : Item → Bool)
+    (hb : ∀ it ∈ items, trueIdx C it.y ≤ C) :
+    ((List.range (C + 1)).map (fun c => items.countP (fun it => trueIdx C it.y == c && q it))).sum =
+      items.countP q := by
+  induction items with
+  | nil => simp
+  | cons a l ih =>
+    have ha := hb a (by simp)
+    have hl := ih (fun it hit => hb it (by simp [hit]))
+    have : ∀ c, (a :: l).countP (fun it => trueIdx C it.y == c && q it) =
+        l.countP (fun it => trueIdx C it.y == c && q it) + (if trueIdx C a.y = c then (if q a then 1 else 0) else 0) := by
+      intro c
+      rw [List.countP_cons]
+      by_cases h1 : trueIdx C a.y = c <;> by_cases h2 : q a = true <;> simp [h1, h2]
+    simp only [this]
+    rw [sum_map_add_nat, hl, sum_range_ite, List.countP_cons]
+    have : trueIdx C a.y < C + 1 := by omega
+    simp [this]
+
+theorem sum_filter_zero {α} (l : List α) (p : α → Bool) (f : α → Nat) (h : ∀ a ∈ l, p a = false → f a = 0) :
+    ((l.filter p).map f).sum = (l.map f).sum := by
+  induction l with
+  | nil => rfl
+  | cons a l ih =>
+    have ih' := ih (fun b hb => h b (by simp [hb]))
+    by_cases hp : p a = true
+    · simp [List.filter_cons, hp, ih']
+    · have hp' : p a = false := by simpa using hp
+      simp [List.filter_cons, hp', ih', h a (by simp) hp']
+
+theorem cast_sum_map {α} (l : List α) (f : α → Nat) : (((l.map f).sum : Nat) : Rat) = (l.map (fun a => (f a : Rat))).sum := by
+  induction l with
+  | nil => simp
+  | cons a l ih => simp [ih]
+
+theorem countP_zero_of_absent (C : Nat) (items : List Item) (q : Item → Bool) (c : Nat)
+    (h : items.any (fun it => trueIdx C it.y == c) = false) :
+    items.countP (fun it => trueIdx C it.y == c && q it) = 0 := by
+  rw [List.countP_eq_zero]
+  intro it hit
+  have : (trueIdx C it.y == c) = false := by
+    rw [List.any_eq_false] at h
+    simpa using h it hit
+  simp [this]
+
+/-- "for balanced datasets, the score is equal to accuracy" (the term's definition): when every class
+    that occurs in the truth occurs equally often, balanced accuracy is plain accuracy -/
+theorem balancedAccuracy_eq_accuracy_of_balanced (C : Nat) (items : List Item) (m : Nat)
+    (hb : ∀ it ∈ items, trueIdx C it.y ≤ C)
+    (hm : ∀ c ∈ presentClasses C items, items.countP (fun it => trueIdx C it.y == c) = m) :
+    balancedAccuracy C items = accuracy C items := by
+  -- totals
+  have hhit : ((presentClasses C items).map (fun c => items.countP (fun it => trueIdx C it.y == c && correct C it))).sum =
+      items.countP (correct C) := by
+    unfold presentClasses
+    rw [sum_filter_zero _ _ _ (fun c _ hc => countP_zero_of_absent C items _ c hc)]
+    exact sum_class_counts C items _ hb
+  have hcnt : ((presentClasses C items).map (fun c => items.countP (fun it => trueIdx C it.y == c))).sum =
+      items.length := by
+    have h1 := sum_class_counts C items (fun _ => true) hb
+    simp only [Bool.and_true, List.countP_true] at h1
+    unfold presentClasses
+    rw [sum_filter_zero _ _ _ (fun c _ hc => by
+      have := countP_zero_of_absent C items (fun _ => true) c hc
+      simpa using this)]
+    exact h1
+  have hlen : items.length = m * (presentClasses C items).length := by
+    rw [← hcnt]
+    have : (presentClasses C items).map (fun c => items.countP (fun it => trueIdx C it.y == c)) =
+        (presentClasses C items).map (fun _ => m) := List.map_congr_left hm
+    rw [this]; simp [Nat.mul_comm]
+  have hrec : (presentClasses C items).map (recallOf C items) =
+      (presentClasses C items).map (fun c => ((items.countP (fun it => trueIdx C it.y == c && correct C it) : Nat) : Rat) / (m : Rat)) := by
+    apply List.map_congr_left
+    intro c hc
+    unfold recallOf ratio
+    rw [hm c hc]
+  unfold balancedAccuracy mean accuracy ratio
+  rw [hrec, sum_map_div, ← cast_sum_map, hhit, hlen]
+  rw [List.length_map, Nat.cast_mul, div_div]
+
 end SE.Metrics
